@@ -245,10 +245,22 @@ func famConc(dir string, seed int64, tier string) {
 	}
 	runtime.GOMAXPROCS(runtime.NumCPU())
 	apiLateRegistration(rep, "C19")
-	nrace := 40000
-	if thorough {
-		nrace = 400000
+	apiRegistrationRace(rep, 5000) // (the race detector slows the window down: the long replay runs in the plain build, family concplain)
+	rep.write(dir)
+}
+
+// the registration race replayed many times in the PLAIN build (the race detector stretches the window between
+// the two registry writes so much that the losing goroutine hardly ever lands inside it)
+func famConcPlain(dir string, seed int64, tier string) {
+	rep := newReport("concplain", seed, tier)
+	rep.Rule = "registration of one new type by 3 goroutines at once, replayed through the VerifUnregister hook; each goroutine then marshals a value of the type and reads it back into `any`; non-trivial = every round"
+	n := 120000
+	if tier == "thorough" {
+		n = 1500000
 	}
-	apiRegistrationRace(rep, nrace)
+	apiRegistrationRace(rep, n)
+	rep.Cases = n
+	rep.Distinct = n
+	rep.Samples = append(rep.Samples, fmt.Sprintf("concplain: %d rounds", n))
 	rep.write(dir)
 }
